@@ -32,7 +32,10 @@ CONNS = {"default": None, "0": 0, "0.25": 0.25, "0.5": 0.5, "1.0": 1.0}
 TIERS = {
     "quick": dict(complete=(1, 2, 3, 4), bounded=(5, 6), bound=2, seeds=200, seed_counts=(1, 2, 3, 5, 8, 15)),
     "thorough": dict(complete=(1, 2, 3, 4), bounded=(5, 6, 7, 8, 10), bound=2, seeds=2000,
-                     seed_counts=(1, 2, 3, 4, 5, 6, 8, 15, 30)),
+                     seed_counts=(1, 2, 3, 4, 5, 6, 8, 15, 30),
+                     # count 5 complete (about 1.1e7 answer sequences per combination at connectivity 1),
+                     # sharded over the workers by the first six choice points
+                     sharded=[(5, en, cn, el) for en in ("D", "U") for cn in ("1.0", "0.5") for el in (True, False)]),
 }
 
 
@@ -136,7 +139,8 @@ def per_case(case):
         if outs[0] != outs[1]:
             return 1, 1, [(f"seeded|not-reproducible|conn={cn}", {"case": list(case)})], "nonrepro"
         return 1, 1, [], "ok"
-    _, count, en, cn, ensurelink, bound = case
+    _, count, en, cn, ensurelink, bound = case[:6]
+    root = tuple(case[6]) if len(case) > 6 else ()
     viols = {}
     stats = {"n": 0, "nontriv": 0}
     outcomes = set()
@@ -153,7 +157,7 @@ def per_case(case):
                 viols[fp] = {"case": list(case), "choices": [c for _, c in trace]}
         return trace
 
-    n_exec, max_len, trunc = engine_f.enumerate_choices(run, bound=bound)
+    n_exec, max_len, trunc = engine_f.enumerate_choices(run, bound=bound, root=root)
     return n_exec, stats["nontriv"], list(viols.items()), (count, "complete" if bound is None else f"dev<={bound}")
 
 
@@ -187,6 +191,11 @@ def run(tier, seed, log):
             for cn in CONNS:
                 for el in (True, False):
                     cases.append(("enum", count, en, cn, el, t["bound"]))
+    for (count, en, cn, el) in t.get("sharded", ()):
+        def probe(prefix, count=count, en=en, cn=cn, el=el):
+            return run_once(count, en, cn, el, prefix)[1]
+        for pre in engine_f.split_prefixes(probe, 6):
+            cases.append(("enum", count, en, cn, el, None, tuple(pre)))
     seed_cases = []
     for count in t["seed_counts"]:
         for cn in ("default", "0.5"):
@@ -208,7 +217,8 @@ def run(tier, seed, log):
         "distinct_nontrivial": res.nontrivial,
         "rule": "every execution is one complete answer sequence of the owned random source (randint: every "
                 "integer of the range; sample: every k-permutation), run on the real randgraph(); complete for "
-                f"count in {list(t['complete'])}, default answers plus all <= {t['bound']}-deviations for count in "
+                f"count in {list(t['complete'])} (and count 5 for {len(t.get('sharded', ()))} combinations in the "
+                f"thorough tier), default answers plus all <= {t['bound']}-deviations for count in "
                 f"{list(t['bounded'])}; x 3 edge types x 5 connectivities x 2 ensurelink; distinct by construction "
                 "(each leaf of the choice tree once); non-trivial = the execution had a real choice",
         "exhaustive": True,
